@@ -138,6 +138,16 @@ Theorem C04_followup_correct : forall mode maxr history j, 1 <= maxr ->
   o_res (nth (length history) (fst (run_jobs mode maxr false (history ++ [j]))) (mkOut JFuel [])) = JOk (plain_result j).
 Proof. exact followup_correct. Qed.
 
+(* ---- the property in one statement: for every sequence of jobs on an idle context, every job that
+   evaluates whole partitions satisfies [job_spec] (result / error / logs / nested refusals), whatever
+   happened in the jobs before it, and the context ends idle *)
+Theorem C04_sequence : forall mode maxr js, 1 <= maxr ->
+  let outs := fst (run_jobs mode maxr false js) in
+  length outs = length js /\ snd (run_jobs mode maxr false js) = false /\
+  forall k j, nth_error js k = Some j -> is_lazy (j_action j) = false ->
+    exists o, nth_error outs k = Some o /\ job_spec mode maxr j o.
+Proof. exact sequence_spec. Qed.
+
 (* ---- non-vacuity / sanity *)
 Definition ex_fail (e p : Z) : option fault := Some (mkFault e p).
 Definition ex_part1 := mkPart [1; 2; 3] [ex_fail 0 1; ex_fail 2 0] [].                 (* fails twice, then succeeds *)
